@@ -219,6 +219,14 @@ func DirectiveRunShape(prog *load.Program, fn *ssa.Function) Result {
 		res.Detail = "the result of Apply is not carried to the next directive"
 		return res
 	}
+	// no match is skipped: every back edge of the loop is dominated by the Apply call
+	hdr := phi.Block()
+	for _, pred := range hdr.Preds {
+		if hdr.Dominates(pred) && !apply.Block().Dominates(pred) {
+			res.Detail = "a match can reach the next iteration without its directive being applied"
+			return res
+		}
+	}
 	// the option comes from NewOption(file, match[k]) with k the range index over the matches
 	opt, ok := apply.Call.Args[0].(*ssa.Call)
 	if !ok || calleeName(&opt.Call) != load.Module+"/pkg/prebuild/directive.NewOption" {
